@@ -631,6 +631,11 @@ pub fn run(id: &str, tier: Tier) -> i32 {
         for f in fatal.iter().take(10) {
             println!("MACHINERY: {}", f);
         }
+        // a violation that was found and confirmed stands (its VIOLATION line and replay file are out): machinery
+        // trouble elsewhere in the same run does not turn the verdict into "no answer"
+        if stats.violations > 0 {
+            return 1;
+        }
         return 2;
     }
     if stats.violations > 0 {
